@@ -29,6 +29,16 @@ type knownFile struct {
 	Fixed    []string       `json:"fixed"`
 }
 
+// outRoot is where evidence and replay files go: /verif for a run against
+// /repo itself, a scratch directory inside the tree under test otherwise
+// (runs against scratch worktrees must not overwrite the committed evidence).
+func outRoot() string {
+	if d := os.Getenv("GOAVC_REPO"); d != "" && filepath.Clean(d) != "/repo" {
+		return filepath.Join(d, ".goavc-out")
+	}
+	return verifRoot()
+}
+
 func verifRoot() string {
 	if d := os.Getenv("GOAVC_VERIF"); d != "" {
 		return d
@@ -168,7 +178,7 @@ type checkRun struct {
 
 func runCheck(prop, tier string, seed int) int {
 	start := time.Now()
-	evPath := filepath.Join(verifRoot(), "evidence", prop+".json")
+	evPath := filepath.Join(outRoot(), "evidence", prop+".json")
 	os.MkdirAll(filepath.Dir(evPath), 0o755)
 	os.Remove(evPath)
 	timeout := 30
@@ -277,7 +287,7 @@ func (cr *checkRun) generateAndSolve() {
 	primary := len(queue)
 	for i := 0; i < len(queue); i++ {
 		ct := queue[i]
-		rep, w := verifyFunction(l, specs, ct)
+		rep, w := verifyFunctionRenamed(l, specs, ct, timeout, seed)
 		cr.reports = append(cr.reports, rep)
 		cr.worlds[rep] = w
 		if i < primary {
@@ -597,7 +607,7 @@ func (cr *checkRun) report(start time.Time, evPath string) int {
 }
 
 func writeReplay(prop, name, body string) string {
-	dir := filepath.Join(verifRoot(), "replays", prop)
+	dir := filepath.Join(outRoot(), "replays", prop)
 	os.MkdirAll(dir, 0o755)
 	fn := strings.NewReplacer("/", "_", "*", "", "(", "", ")", "", "$", "_", "#", "-", " ", "_").Replace(name) + ".txt"
 	p := filepath.Join(dir, fn)
